@@ -318,6 +318,12 @@ func (x *Exec) applyContract(fc *FuncContract, key string, sig *types.Signature,
 		pty := x.w.goTy(p.Type(), x.model.BV)
 		names[p.Name()] = Val{T: x.coerceTo(args[i], pty), Ty: pty}
 	}
+	for n, v := range x.pendingCaptured {
+		if _, have := names[n]; !have {
+			names[n] = v
+		}
+	}
+	x.pendingCaptured = nil
 	calleePkg := x.eng.pkgTypes[fc.Pkg]
 	if strings.Contains(key, ".") {
 		pn := key[:strings.Index(key, ".")]
@@ -410,8 +416,9 @@ func (x *Exec) applyContract(fc *FuncContract, key string, sig *types.Signature,
 		}
 	}
 	for _, w := range fc.Witnesses {
-		if _, ok := names[w.Name]; !ok {
-			names[w.Name] = Val{T: x.sym.Fresh("wit_"+w.Name, SInt), Ty: tyInt}
+		wn := strings.TrimSuffix(w.Name, ":float")
+		if _, ok := names[wn]; !ok {
+			names[wn] = x.freshWitness(w)
 		}
 	}
 	for _, en := range fc.Ensures {
@@ -541,7 +548,21 @@ func (x *Exec) funcLit(e *ast.FuncLit, st *State) Val {
 	id := 900000 + x.closureID
 	fr := x.cur()
 	fr.funcLits++
-	x.closures[id] = &closure{lit: e, fr: fr, name: fmt.Sprintf("%s#lit%d", fr.key, fr.funcLits)}
+	ord := fr.funcLits
+	if fr.body != nil {
+		// number literals in source order within the enclosing function
+		cnt := 0
+		ast.Inspect(fr.body, func(nd ast.Node) bool {
+			if l, ok := nd.(*ast.FuncLit); ok {
+				cnt++
+				if l == e {
+					ord = cnt
+				}
+			}
+			return true
+		})
+	}
+	x.closures[id] = &closure{lit: e, fr: fr, name: fmt.Sprintf("%s#lit%d", fr.key, ord)}
 	return Val{T: IntLit(id), Ty: x.tyOf(e)}
 }
 
@@ -551,6 +572,33 @@ func (x *Exec) inlineClosure(cl *closure, args []Val, e ast.Node, st *State) []V
 	// a closure may carry loop invariants under the key  Func#litN
 	if c, ok := x.eng.contracts[cl.name]; ok {
 		fc = c
+	}
+	if fc != nil && !fc.Inline && fc.HasAssigns {
+		// the literal has a contract of its own (verified separately as
+		// Func#litN): use it modularly
+		call, _ := e.(*ast.CallExpr)
+		if call == nil {
+			call = &ast.CallExpr{Fun: cl.lit, Lparen: cl.lit.Pos()}
+		}
+		// captured variables are visible to the literal's contract by name
+		x.pendingCaptured = map[string]Val{}
+		ast.Inspect(cl.lit.Body, func(nd ast.Node) bool {
+			if id, ok := nd.(*ast.Ident); ok {
+				if v, ok := cl.fr.info.Uses[id].(*types.Var); ok && !v.IsField() {
+					if t, have := st.vars[v]; have && (v.Pos() < cl.lit.Pos() || v.Pos() > cl.lit.End()) {
+						ty := x.w.goTy(v.Type(), x.model.BV)
+						if x.heapified[v] {
+							_, h := x.ptrHeapOf(st, ty)
+							t = st.sel(h, t)
+						}
+						x.pendingCaptured[v.Name()] = Val{T: t, Ty: ty}
+					}
+				}
+			}
+			return true
+		})
+		defer func() { x.pendingCaptured = nil }()
+		return x.applyContract(fc, cl.name, sig, nil, args, call, st)
 	}
 	fr := &frame{key: cl.name, pkg: cl.fr.pkg, info: cl.fr.info, fc: fc, sig: sig, body: cl.lit.Body}
 	return x.inlineBody(fr, cl.lit.Body, nil, nil, sig, args, e, st)
